@@ -38,6 +38,7 @@ type witness struct {
 }
 
 var witnesses = []witness{
+	{"cover0", "plain", "inline_implicit", attrKey, "k1", "inline-body-hides-implicit-credential", nil},
 	{"cover0", "svc", "bearer", attrToken, "a b", "bearer-token-with-space", nil},
 	{"cover0", "svc", "bearer", attrToken, "", "bearer-token-empty", nil},
 	{"cover0", "plain", "from_api", attrAToken, "x y z", "bearer-token-with-space", nil},
@@ -207,7 +208,9 @@ func main() {
 				res.Count("decoder_not_parsed")
 				res.Extra["last_strip_error"] = mi.Def + ": " + mi.StripErr
 			}
-			stripLines = append(stripLines, fmt.Sprintf("(%d, L_%s, R_%s, %s)", len(stripLines), mi.Def, mi.Def, vh.CoqList(as)))
+			if !anyHiddenImplicit(mi.M) { // the recorded finding drops the credential before anything the model describes
+				stripLines = append(stripLines, fmt.Sprintf("(%d, L_%s, R_%s, %s)", len(stripLines), mi.Def, mi.Def, vh.CoqList(as)))
+			}
 			res.Evaluations++
 			res.Count(fmt.Sprintf("header_credentials=%d", len(want)))
 			if len(want) > 1 {
@@ -222,7 +225,11 @@ func main() {
 				}
 			}
 			if mi.StripErr != "" || !sameStrs(mi.Strips, want) {
-				res.Fail("decoder-strips-wrong-fields", fmt.Sprintf("%s.%s: the generated request decoder removes the scheme prefix from payload fields %v (%s); the header-carried credentials of the method's requirements are %v",
+				sig := "decoder-strips-wrong-fields"
+				if mi.StripErr == "" && anyHiddenImplicit(mi.M) {
+					sig = "inline-body-hides-implicit-credential"
+				}
+				res.Fail(sig, fmt.Sprintf("%s.%s: the generated request decoder removes the scheme prefix from payload fields %v (%s); the header-carried credentials of the method's requirements are %v",
 					mi.S.Name, mi.M.Name, mi.Strips, mi.StripErr, want), map[string]any{"tier": "B", "design": mi.D, "service": mi.S.Name, "method": mi.M.Name, "stripped_fields": mi.Strips, "expected_fields": want})
 			}
 		}
@@ -342,8 +349,11 @@ func main() {
 		}
 		before := len(res.Failures)
 		idx := len(exLines)
-		exLines = append(exLines, judge(res, idx, mi, ex, ob, declared))
-		res.Cases = append(res.Cases, ex)
+		line := judge(res, idx, mi, ex, ob, declared)
+		if !anyHiddenImplicit(mi.M) { // see above: outside the modelled transport
+			exLines = append(exLines, line)
+			res.Cases = append(res.Cases, ex)
+		}
 		if strings.HasPrefix(ex.Stream, "witness:") {
 			want := strings.TrimPrefix(ex.Stream, "witness:")
 			got := false
